@@ -72,6 +72,11 @@ theorem C18_resume_touches_no_stack (σ : State) (t u : Tid) :
     (step σ (.resume t)).tasks[u]?.map (·.stack) = σ.tasks[u]?.map (·.stack) :=
   resume_frame σ t u
 
+/-- scheduling a callback from outside (`p.call_soon(cb)` between two callbacks) leaves every existing task untouched -/
+theorem C18_external_call_soon_touches_no_task (σ : State) (p : Pid) (cb : Nat) (u : Tid) (hu : u < σ.tasks.length) :
+    (step σ (.callSoon p cb)).tasks[u]? = σ.tasks[u]? :=
+  callSoon_frame σ p cb u hu
+
 /-- at the level of single operations: whatever task `t` executes, the records of all other tasks are unchanged -/
 theorem C18_op_touches_only_own_context (σ : State) (t u : Tid) (hu : u < σ.tasks.length) (hne : u ≠ t) :
     (exec1 σ t).1.tasks[u]? = σ.tasks[u]? :=
